@@ -58,14 +58,9 @@ class Shuffle(pipes.Shuffle, EnvironmentFilter):
 
                 # np.corrcoef(R1,R2)
 
-            old_seed = self._seed
-            new_seed = self._seed * 3.21 if self._seed is not None else self._seed
-
-            self._seed = new_seed
-            try:
-                yield from super().filter(interactions)
-            finally:
-                self._seed = old_seed #also when the read is abandoned part-way
+            #the filter itself is left untouched so that reads which overlap (or were abandoned) can't see each other
+            seed = self._seed * 3.21 if self._seed is not None else self._seed
+            yield from CobaRandom(seed).shuffle(list(interactions),inplace=True)
 
         else:
             yield from super().filter(interactions)
